@@ -493,17 +493,24 @@ pub fn render_float_sci(
 	trailing: bool,
 	caps: bool,
 ) {
-	let exponent = if n == 0.0 {
+	let mut exponent = if n == 0.0 {
 		0.0
 	} else {
 		n.abs().log10().floor()
 	};
 
-	let mantissa = if exponent as i16 == -324 {
+	let mut mantissa = if exponent as i16 == -324 {
 		n * 10.0 / 10.0_f64.powf(exponent + 1.0)
 	} else {
 		n / 10.0_f64.powf(exponent)
 	};
+	// Rounding to the requested precision may carry into a second integer digit
+	// (9.99 with one decimal is 10.0): renormalize, as render_float rounds the same way.
+	let denominator = 10.0f64.powi(i32::from(precision));
+	if (mantissa.abs().mul_add(denominator, 0.5) / denominator).floor() >= 10.0 {
+		mantissa /= 10.0;
+		exponent += 1.0;
+	}
 	let mut exponent_str = String::new();
 	render_decimal(
 		&mut exponent_str,
